@@ -60,6 +60,37 @@ fn build(d: &Dur, route: u8) -> Duration {
                 plain
             }
         }
+        // results of the assignment forms, of an absolute value, of an exact product and quotient
+        9 | 10 => {
+            let p = c.rem_euclid(1000) + 1;
+            if route == 9 && c - p > DMIN {
+                let mut x = Duration::from_total_nanoseconds(c - p);
+                x += Duration::from_total_nanoseconds(p);
+                x
+            } else if route == 10 && c + p < DMAX {
+                let mut x = Duration::from_total_nanoseconds(c + p);
+                x -= Duration::from_total_nanoseconds(p);
+                x
+            } else {
+                plain
+            }
+        }
+        11 if c > DMIN && c < DMAX => {
+            if c >= 0 {
+                Duration::from_total_nanoseconds(-c).abs()
+            } else {
+                plain
+            }
+        }
+        12 if c % 3 == 0 && c.abs() < NPC => Duration::from_total_nanoseconds(c / 3) * 3,
+        // (non-negative only: / reads total_nanoseconds(), wrong below -2 centuries - open finding KF-total-ns-sign)
+        13 if c >= 0 && c < NPC => Duration::from_total_nanoseconds(c * 3) / 3,
+        14 if c - NS_S > DMIN && c < DMAX => {
+            // a sum with a Unit landing on the value
+            let mut x = Duration::from_total_nanoseconds(c - NS_S);
+            x += hifitime::Unit::Second;
+            x
+        }
         // conversion from the standard library's duration (non-negative counts that fit)
         8 if c >= 0 && c / NS_S <= u64::MAX as i128 => Duration::from(std::time::Duration::new((c / NS_S) as u64, (c % NS_S) as u32)),
         _ => plain,
@@ -92,7 +123,7 @@ fn pair_strategy() -> BS<Pair> {
     let same_count = (prop_oneof![count_any(), (0usize..9, -40_000i128..=40_000).prop_map(|(u, k)| clamp(k * UNIT_NS[u]))], small_delta(1))
         .prop_map(|(c, d)| Pair { a: Dur::of_count(c), b: Dur::of_count(c + d), structured: true, route: (0, 0) })
         .boxed();
-    (wunion(vec![(4, free), (5, structured), (2, zero_x), (3, same_count)]), any::<bool>(), 0u8..9, 0u8..9)
+    (wunion(vec![(4, free), (5, structured), (2, zero_x), (3, same_count)]), any::<bool>(), 0u8..15, 0u8..15)
         .prop_map(|(p, sw, r1, r2)| if sw { Pair { a: p.b, b: p.a, structured: p.structured, route: (r1, r2) } } else { Pair { route: (r1, r2), ..p } })
         .boxed()
 }
